@@ -108,3 +108,123 @@ PROPS['C08'] = dict(
     level_note='For a BilinearForm with a spline factor whose operands share no interval neither a throw nor a value is demanded (guard unreachable, DESIGN 6.2). Q and double.',
     assumptions=[EXACT, SAN],
 )
+
+# ---------------------------------------------------------------- histories (C09, C10, C14)
+import json as _json, os as _os, shutil as _shutil, glob as _glob, time as _time
+
+HIST_T = T('h_hist', parts=4)
+HIST_T_CHECKS = T('h_hist_checks', kind='asan_checks', src=['harness/h_hist.cpp'], parts=4)
+FUZZ_T = T('fuzz_history', kind='fuzz', parts=4)
+
+def fuzz_unit(focus_mask, quick_runs, thorough_runs, thorough_jobs=16):
+    """custom unit: libFuzzer campaign over the history interpreter (T=double)."""
+    def run(u, tier, res, env):
+        exe, bl = env['build'](FUZZ_T)
+        if exe is None:
+            res.notes.append('BUILD-FAILED fuzz_history log=%s' % bl)
+            res.extra.setdefault('build_failures', []).append(bl)
+            return
+        HERE, BUILD, REPLAYS, SEED = env['HERE'], env['BUILD'], env['REPLAYS'], env['SEED']
+        jobs = 1 if tier == 'quick' else thorough_jobs
+        runs = quick_runs if tier == 'quick' else thorough_runs
+        work = _os.path.join(BUILD, 'fuzzwork-%d-%d' % (_os.getpid(), focus_mask))
+        _shutil.rmtree(work, ignore_errors=True)
+        _os.makedirs(work)
+        procs = []
+        for k in range(jobs):
+            corp = _os.path.join(work, 'corpus%d' % k)
+            _os.makedirs(corp)
+            # even jobs start from the committed seed corpus, odd jobs from an empty one
+            if k % 2 == 0:
+                for f in _glob.glob(_os.path.join(HERE, 'corpus', 'history', '*')):
+                    _shutil.copy(f, corp)
+            art = _os.path.join(work, 'art%d-' % k)
+            cnt = _os.path.join(work, 'cnt%d.json' % k)
+            e = dict(_os.environ, HIST_FOCUS=str(focus_mask), HIST_COUNTERS=cnt,
+                     ASAN_OPTIONS='detect_leaks=1:abort_on_error=0', UBSAN_OPTIONS='print_stacktrace=1')
+            cmd = [exe, '-runs=%d' % runs, '-seed=%d' % (SEED * 131 + k + 1), '-max_len=1000', '-len_control=50', '-artifact_prefix=' + art,
+                   '-print_final_stats=1', '-timeout=60', '-rss_limit_mb=4096', corp]
+            procs.append((k, cmd, e, cnt, art))
+        from concurrent.futures import ThreadPoolExecutor
+        def go(p):
+            k, cmd, e, cnt, art = p
+            return p, env['run_proc'](cmd, timeout=6 * 3600, env=e)
+        tot = dict(execs=0, steps=0, nontrivial=0, with_moves=0, with_throws=0, ops={})
+        ntkey = {1: 'nontrivial_c09', 2: 'nontrivial_c10', 4: 'nontrivial_c14'}[focus_mask]
+        with ThreadPoolExecutor(max_workers=jobs) as ex:
+            for (k, cmd, e, cnt, art), (rc, so, se, wall) in ex.map(go, procs):
+                if _os.path.exists(cnt):
+                    try:
+                        j = _json.load(open(cnt))
+                        tot['execs'] += j['execs']; tot['steps'] += j['steps']; tot['nontrivial'] += j[ntkey]
+                        tot['with_moves'] += j['with_moves']; tot['with_throws'] += j['with_throws']
+                        for n, c in j['ops'].items():
+                            tot['ops'][n] = tot['ops'].get(n, 0) + c
+                    except Exception as ex2:
+                        res.notes.append('fuzz counters unreadable: %s' % ex2)
+                # only crash-/leak- artefacts are violations; slow-unit/timeout/oom are load noise
+                for a in _glob.glob(art + 'crash-*') + _glob.glob(art + 'leak-*'):
+                    dst = _os.path.join(REPLAYS, 'fuzz-%s-%s' % (u['pid'], _os.path.basename(a).split('-', 1)[1]))
+                    _shutil.copy(a, dst)
+                    tail = [l for l in se.splitlines() if 'ORACLE-FAILURE' in l or 'ERROR:' in l or 'history:' in l or 'runtime error' in l]
+                    res.extra.setdefault('fuzz_candidates', []).append(dst)
+                    res.candidates.append(([exe], dst, ' | '.join(tail)[:1500], dict(_os.environ, HIST_FOCUS=str(focus_mask))))
+                if rc not in (0,) and not (_glob.glob(art + 'crash-*') or _glob.glob(art + 'leak-*')):
+                    res.notes.append('fuzzer job %d ended rc=%s without crash artefact (load noise / inconclusive): %s' % (k, rc, se[-300:].replace('\n', ' ')))
+        res.extra['fuzz'] = dict(engine='libFuzzer', jobs=jobs, runs_per_job=runs, executions=tot['execs'], steps=tot['steps'],
+                                 nontrivial_executions=tot['nontrivial'], executions_with_moves=tot['with_moves'],
+                                 executions_with_throwing_calls=tot['with_throws'], opcode_counts=tot['ops'],
+                                 note='libFuzzer executions are counted separately from the rapidcheck evaluations; non-trivial by the same rule, distinctness not measured for fuzz inputs')
+        _shutil.rmtree(work, ignore_errors=True)
+    def replay(path, env):
+        if not _os.path.basename(path).startswith('fuzz-'):
+            return False
+        exe, bl = env['build'](FUZZ_T)
+        if exe is None:
+            return False
+        e = dict(_os.environ, HIST_FOCUS=str(focus_mask))
+        rc, so, se, _ = env['run_proc']([exe, path], timeout=600, env=e)
+        print(se[-3000:])
+        return rc != 0
+    return dict(custom=run, replay=replay, prebuild=[FUZZ_T])
+
+HIST_RULE = ('histories = sequences of opcodes (49 kinds: every constructor/factory with valid and deliberately invalid arguments, copy, move, copy-/move-assignment, self-assignment, self-move-assignment, cross-order assignment, '
+             'scalar * / *= /=, unary minus, + - * across orders 0..3, += -=, linearCombination, primitive / compound / spline-valued operator application, linear and bilinear forms, evaluation, union/intersection, checked accessors with index classes around 2^32, 2^63, SIZE_MAX, '
+             'calls that must throw) over a pool of grids, supports and splines; rapidcheck generates vector<Op> (free histories of size-scaled length and histories with a populating prefix + 1..40 ops), libFuzzer mutates the same encoding as bytes (T=double). ')
+
+PROPS['C10'] = dict(
+    units=[dict(target=HIST_T, quick=dict(args=['--focus', 'C10'], scale=4.0), thorough=dict(args=['--focus', 'C10', '--max-size', '200'], scale=12.0, shards=8)),
+           dict(target=HIST_T_CHECKS, quick=dict(args=['--focus', 'C10'], scale=1.0), thorough=dict(args=['--focus', 'C10', '--max-size', '200'], scale=6.0, shards=8)),
+           fuzz_unit(2, 150000, 2000000)],
+    rule=HIST_RULE + 'Oracle (C10) after EVERY step, for EVERY live object, through public accessors: grid >= 2 strictly increasing points; support (0,0) or start<end<=grid size with consistent size/empty/interval count; spline coefficient-array count == interval count; '
+         'moved-from support/spline is empty/interval-free on the same grid, behaves as the zero spline when added / multiplied / assigned to; self-copy-assignment preserves the value; the harness is also built with BSPLINE_ADD_TEST_CHECKS so an INCONSISTENT_DATA from a self-check on valid input is a failure. '
+         'Non-trivial: the history contains a move or a failing call followed by a further use of an object involved. Distinct = distinct history text.',
+    technique='model-based stateful testing: rapidcheck-generated API call histories + libFuzzer byte-mutated histories, class invariants checked after every step',
+    engine='rapidcheck + libFuzzer',
+    level_text='Generated-history search (stateful, model-based) with the invariant oracle run after every step on every live object, in two library configurations, plus a coverage-guided campaign over the same interpreter. Sampling of an infinite history space, not proof.',
+    level_note='Trusted: the interpreter (hist.h) and the sanitizers. For x = std::move(x) only the invariants are required afterwards (DESIGN 6.3). Spline orders 0..3 in the pool; results of higher order are checked and dropped.',
+    assumptions=[EXACT, SAN],
+)
+PROPS['C14'] = dict(
+    units=[dict(target=HIST_T, quick=dict(args=['--focus', 'C14'], scale=1.0), thorough=dict(args=['--focus', 'C14', '--max-size', '200'], scale=4.0, shards=16)),
+           fuzz_unit(4, 60000, 1000000)],
+    rule=HIST_RULE + 'Oracle (C14): before/after snapshots (grid points incl. getData(), window, coefficient arrays, three evaluations) of EVERY object that is not the declared target of the step are identical; a copy / assigned object equals its source; '
+         'moved-to equals the source\'s former state; a op= b equals a op b; an in-place call that throws leaves its target unchanged. Non-trivial: an object with a live copy/derivative is mutated in place, or an in-place call throws. Distinct = distinct history text.',
+    technique='model-based stateful testing: generated API call histories with before/after snapshots of every non-target object',
+    engine='rapidcheck + libFuzzer',
+    level_text='Generated-history search with full-pool snapshot comparison after every step (exact in Q, bitwise in double under libFuzzer). Sampling, not proof.',
+    level_note='Trusted: the interpreter\'s declaration of each opcode\'s target objects (hist.h) and the snapshot function (public accessors only).',
+    assumptions=[EXACT, SAN],
+)
+PROPS['C09'] = dict(
+    units=[dict(target=HIST_T, quick=dict(args=['--focus', 'C09'], scale=4.0), thorough=dict(args=['--focus', 'C09', '--max-size', '200'], scale=12.0, shards=8)),
+           fuzz_unit(1, 250000, 3000000)],
+    rule=HIST_RULE + 'Oracle (C09): no ASan / UBSan / _GLIBCXX_ASSERTIONS (rapidcheck build) or _GLIBCXX_DEBUG (libFuzzer build) report, no foreign exception (std::out_of_range, bad_optional_access, ...) and no BSplineException from a call whose preconditions hold; '
+         'checked accessors (Grid::at, Support::at, absoluteFromRelative, front/back) throw exactly for indices outside the view and otherwise return the element grid[start+index]. '
+         'Non-trivial: a spline-factor operator applied where the factor\'s support ends inside the operand, a cross-order operation on partly overlapping windows, or an accessor index above 2^32. Distinct = distinct history text.',
+    technique='coverage-guided fuzzing (libFuzzer, ASan+UBSan+_GLIBCXX_DEBUG) and rapidcheck generation of API call histories; oracle = sanitizer reports + accessor-throws predicate',
+    engine='libFuzzer + rapidcheck',
+    level_text='Sanitizer-instrumented search over generated and coverage-guided call histories with valid arguments, and an index sweep incl. the extremes of size_t (C13 enumerates the same accessors exhaustively on small grids). Absence of reports on everything explored, not proof. Every other harness of this suite also runs under the same sanitizers.',
+    level_note='Trusted: ASan/UBSan/libstdc++ debug mode detect what they instrument; uninitialised reads are not covered by these sanitizers (MSan unusable: no instrumented libstdc++).',
+    assumptions=[SAN],
+)
